@@ -220,6 +220,19 @@ def object_menu(uid, idx):
     add("DeriveKey/len-12", {"op": "DeriveKey", "uids": [uid], "method": "HASH", "attrs": [["Cryptographic Length", 12], ["Cryptographic Algorithm", "AES"]], "dp": dv})
     add("DeriveKey/len-0", {"op": "DeriveKey", "uids": [uid], "method": "HASH", "attrs": [["Cryptographic Length", 0], ["Cryptographic Algorithm", "AES"]], "dp": dv})
     add("DeriveKey/len-huge", {"op": "DeriveKey", "uids": [uid], "method": "HASH", "attrs": [["Cryptographic Length", 8000], ["Cryptographic Algorithm", "AES"]], "dp": dv})
+    # every derivation method x lengths at the edges of the value range (the length is a signed
+    # 32-bit integer on the wire)
+    full = {"params": {"hash": "SHA_256", "alg": "AES", "mode": "CBC", "pad": "PKCS5"},
+            "data": "0102030405060708090a0b0c0d0e0f10", "salt": "0304", "iter": 2, "iv": blk}
+    for me in DERIVATION_METHODS[:5]:
+        for ln in (-8, -2 ** 31, 65280, 65288, 2 ** 31 - 8):
+            if me in ("PBKDF2", "NIST800_108_C") and ln > 2 ** 20:
+                continue        # these would really produce (and hold) a quarter of a gigabyte
+            for ot in ("SymmetricKey", "SecretData") if ln in (-8, 65288) else ("SymmetricKey",):
+                add("DeriveKey/len-edge-%s-%d-%s" % (me, ln, ot),
+                    {"op": "DeriveKey", "otype": ot, "uids": [uid], "method": me,
+                     "attrs": [["Cryptographic Length", ln]] + ([["Cryptographic Algorithm", "AES"]] if ot == "SymmetricKey" else []),
+                     "dp": full})
     add("DeriveKey/no-data-two-objects", {"op": "DeriveKey", "uids": [uid, idx["secret2"]], "method": "HASH", "attrs": la, "dp": {"params": {"hash": "SHA_256"}}})
     add("DeriveKey/no-data", {"op": "DeriveKey", "uids": [uid], "method": "HASH", "attrs": la, "dp": {"params": {"hash": "SHA_256"}}})
     add("DeriveKey/no-uids", {"op": "DeriveKey", "uids": [], "method": "HASH", "attrs": la, "dp": dv})
